@@ -46,7 +46,7 @@ pub struct Case {
 }
 
 fn strategy() -> impl Strategy<Value = Case> {
-    let width = prop_oneof![3 => 2usize..=200, 2 => 63usize..=66, 2 => 127usize..=130, 1 => 191usize..=194];
+    let width = prop_oneof![3 => 2usize..=200, 2 => 63usize..=66, 2 => 127usize..=140, 2 => 191usize..=200, 1 => 130usize..=260];
     (
         width,
         0usize..=70,
@@ -56,13 +56,17 @@ fn strategy() -> impl Strategy<Value = Case> {
         proptest::collection::vec((any::<u8>(), raw16(), raw16(), raw16(), raw16()).prop_map(|(kind, a, b, c, d)| RawOp { kind, a, b, c, d }), 1..140),
     )
         .prop_map(|(width, extra_height, rh, density, fill_seed, ops)| {
-            // trailing dense hint P in 1..=min(width-1, 70), weighted towards word boundaries
-            let pmax = (width - 1).min(70).max(1);
-            let dense_hint = match rh % 6 {
-                0 => 1 + (rh as usize >> 3) % pmax,
-                1 | 2 | 3 => pmax.min(61 + (rh as usize >> 3) % 4),
-                4 => 1,
-                _ => pmax,
+            // trailing dense hint P in 1..=width-1, weighted to just below the 64-, 128- and
+            // 192-column boundaries so that a few freezes grow the tail into a 2nd, 3rd, 4th word
+            let pmax = (width - 1).max(1);
+            let r = rh as usize >> 3;
+            let dense_hint = match rh % 8 {
+                0 => 1 + r % pmax,
+                1 | 2 => 61 + r % 4,
+                3 | 4 => 125 + r % 4,
+                5 => 189 + r % 4,
+                6 => 1,
+                _ => 1 + r % pmax.min(70),
             }
             .clamp(1, pmax);
             Case { width, extra_height, dense_hint, density, fill_seed, ops }
@@ -557,7 +561,7 @@ fn signature(_: &Case, msg: &str) -> String {
 }
 
 pub fn run(ctx: &Ctx, rep: &mut Report) {
-    rep.rule = "model-based: generated shape (width 2..=200 weighted to 63..66, 127..130, 191..194; height = width + 0..=70; trailing dense hint 1..=min(width-1,70) weighted to word boundaries; initial fill through set with generated density) and 1..90 raw operation descriptors interpreted by the model into admissible operations of a three-phase protocol mirroring every precondition asserted in sparse_matrix.rs: construction (set, swap rows/columns, additions, queries), indexed (enable; swap rows; swap columns within the sparse part with a valid start-row hint; freeze the last sparse column; pivot elimination add(dest,src,0) when src has a single one in the sparse part and dest has it set; add(dest,src,first dense column); set in the dense part; count/iterate rows over the sparse part; ones of still-valid columns; packed sub-row and non-zero columns at the first dense column; get), un-indexed (disable; resize keeping width or dropping at least the dense tail, height >= width; unrestricted additions; set; queries). Oracle: a Vec<Vec<Tri>> with an undefined state (cells of dest left of start_col where src is non-zero after a partial addition); every query of BOTH implementations is compared with the model on defined cells, packed rows are unpacked by the harness, and all defined cells are scanned at the end. Non-trivial = sequence with a freeze that crosses a 64-column boundary of the dense tail, a resize, and a column swap after a row swap; distinct by (shape, op sequence).".into();
+    rep.rule = "model-based: generated shape (width 2..=260 weighted to 63..66, 127..140, 191..200; height = width + 0..=70; trailing dense hint 1..=width-1 weighted to just below the 64/128/192-column boundaries; initial fill through set with generated density) and 1..90 raw operation descriptors interpreted by the model into admissible operations of a three-phase protocol mirroring every precondition asserted in sparse_matrix.rs: construction (set, swap rows/columns, additions, queries), indexed (enable; swap rows; swap columns within the sparse part with a valid start-row hint; freeze the last sparse column; pivot elimination add(dest,src,0) when src has a single one in the sparse part and dest has it set; add(dest,src,first dense column); set in the dense part; count/iterate rows over the sparse part; ones of still-valid columns; packed sub-row and non-zero columns at the first dense column; get), un-indexed (disable; resize keeping width or dropping at least the dense tail, height >= width; unrestricted additions; set; queries). Oracle: a Vec<Vec<Tri>> with an undefined state (cells of dest left of start_col where src is non-zero after a partial addition); every query of BOTH implementations is compared with the model on defined cells, packed rows are unpacked by the harness, and all defined cells are scanned at the end. Non-trivial = sequence with a freeze that crosses a 64-column boundary of the dense tail, a resize, and a column swap after a row swap; distinct by (shape, op sequence).".into();
     rep.assumptions.push("trailing dense hint >= 1 as in every caller (the solver passes P >= 10)".into());
     let n = ctx.tier.pick(200_000u64, 2_000_000);
     rep.absorb("model", run_sharded("C16", "model", ctx.seed, n, 32, strategy, check, to_json, signature));
@@ -578,7 +582,7 @@ pub fn fuzz_one(data: &[u8]) -> Result<(), String> {
         _ => u.int_in_range(2..=40usize).unwrap_or(2),
     };
     let extra_height = u.int_in_range(0..=70usize).unwrap_or(0);
-    let pmax = (width - 1).min(70).max(1);
+    let pmax = (width - 1).max(1);
     let dense_hint = u.int_in_range(1..=pmax).unwrap_or(1);
     let density = u.int_in_range(0..=3u8).unwrap_or(0);
     let fill_seed: u64 = u.arbitrary().unwrap_or(0);
